@@ -140,6 +140,11 @@ func genC10(t *rapid.T) c10Case {
 	c.Both = rapid.Bool().Draw(t, "both")
 	c.Choices = genChoices(t, 120)
 	c.ReqSize = rapid.SampledFrom([]int{0, 0, 30, 300}).Draw(t, "reqsize")
+	if rapid.IntRange(0, 2).Draw(t, "points") == 0 {
+		// the server is slow to report the failure: what the client sent meanwhile is already waiting in the stream
+		c.Cfg.Points = []string{"stream.SendError.beforeWriteLock"}
+		c.Cfg.PointLimit = 4
+	}
 	return c
 }
 
